@@ -586,9 +586,12 @@ func getMultiBestPath(id string, pathList []*Path) []*Path {
 	// between some paths, eBGP paths are ordered by age), so the equal paths
 	// are not necessarily a prefix of the list and a binary search cannot be
 	// used here.
+	// A LLGR stale path is least preferred (it is ordered after every other
+	// path before anything else is compared): it is not equal cost with a
+	// best path that is not stale.
 	multi := make([]*Path, 0, len(pathList))
 	for _, p := range pathList {
-		if !p.IsNexthopInvalid && p.Compare(best) == 0 {
+		if !p.IsNexthopInvalid && p.IsLLGRStale() == best.IsLLGRStale() && p.Compare(best) == 0 {
 			multi = append(multi, p)
 		}
 	}
